@@ -80,6 +80,121 @@ theorem loc_id_of_no_point (d : UInt8) (l : Bytes) (h : 46 ∉ l) :
     have : a ≠ 46 := fun e => h.1 e.symm
     simp [this, ih h.2]
 
+/-! ## `h` columns: `String::hexToInt` = `(unsigned) strtoul(text, NULL, 16)` on hex number texts -/
+
+/-- positional value of a hex digit string -/
+def hexDigitsVal (ds : Bytes) (y : Nat) : Nat := ds.foldl (fun y c => 16 * y + (hexVal c).getD 0) y
+
+theorem hexLoop_digits (ds : Bytes) (y : Nat) (hd : ∀ c ∈ ds, (hexVal c).isSome = true) :
+    hexLoop ds y = hexDigitsVal ds y := by
+  induction ds generalizing y with
+  | nil => rfl
+  | cons c t ih =>
+    have hc := hd c (by simp)
+    cases e : hexVal c with
+    | none => simp [e] at hc
+    | some d =>
+      simp only [hexLoop, e, hexDigitsVal, List.foldl_cons, Option.getD_some]
+      exact ih _ (fun c hc => hd c (by simp [hc]))
+
+theorem hexVal_facts (c : UInt8) (h : (hexVal c).isSome = true) :
+    c ≠ 120 ∧ c ≠ 88 ∧ c ≠ 45 ∧ c ≠ 43 ∧ isBlankC c = false := by
+  refine ⟨?_, ?_, ?_, ?_, ?_⟩
+  · rintro rfl; revert h; decide
+  · rintro rfl; revert h; decide
+  · rintro rfl; revert h; decide
+  · rintro rfl; revert h; decide
+  · cases hb : isBlankC c with
+    | false => rfl
+    | true =>
+      exfalso
+      simp only [isBlankC, Bool.or_eq_true, beq_iff_eq, Bool.and_eq_true, decide_eq_true_eq] at hb
+      simp only [hexVal] at h
+      rcases hb with rfl | ⟨h1, h2⟩
+      · revert h; decide
+      · have : ¬ (48 ≤ c ∧ c ≤ 57) := fun ⟨a, _⟩ => by
+          rw [UInt8.le_iff_toNat_le] at a h2; simp at a h2; omega
+        have h3 : ¬ (97 ≤ c ∧ c ≤ 102) := fun ⟨a, _⟩ => by
+          rw [UInt8.le_iff_toNat_le] at a h2; simp at a h2; omega
+        have h4 : ¬ (65 ≤ c ∧ c ≤ 70) := fun ⟨a, _⟩ => by
+          rw [UInt8.le_iff_toNat_le] at a h2; simp at a h2; omega
+        simp [this, h3, h4] at h
+
+/-- a hex number text: optional `0x` / `0X`, then 1 or more hex digits of either case, value below 2^32 -/
+def HexText (s : Bytes) : Prop :=
+  ∃ (pre ds : Bytes), (pre = [] ∨ pre = [48, 120] ∨ pre = [48, 88]) ∧ s = pre ++ ds ∧ ds ≠ [] ∧
+    (∀ c ∈ ds, (hexVal c).isSome = true) ∧ hexDigitsVal ds 0 < 4294967296
+
+/-- the value a hex text denotes: positional reading of what follows the optional prefix -/
+def hexValue (s : Bytes) : Nat :=
+  hexDigitsVal (if s.take 2 = [48, 120] ∨ s.take 2 = [48, 88] then s.drop 2 else s) 0
+
+/-- what `Var(unsigned)` holds: an `int` below 2^31, otherwise the (exact) double -/
+def hexCell (y : Nat) : RCell := if y < 2147483648 then .int y else .num ⟨false, y, 0⟩
+
+theorem skip0x_digits (ds : Bytes) (hd : ∀ c ∈ ds, (hexVal c).isSome = true) : skip0x ds = ds := by
+  unfold skip0x
+  split
+  · rename_i x h t
+    have hx := hexVal_facts x (hd x (by simp))
+    simp [hx.1, hx.2.1]
+  · rfl
+
+theorem hexU32_prefixed (x d : UInt8) (t : Bytes) (hx : x = 120 ∨ x = 88) (hd : ∀ c ∈ d :: t, (hexVal c).isSome = true)
+    (hb : hexDigitsVal (d :: t) 0 < 4294967296) :
+    hexU32 (48 :: x :: d :: t) = hexDigitsVal (d :: t) 0 ∧ hexValue (48 :: x :: d :: t) = hexDigitsVal (d :: t) 0 := by
+  have hsome : (hexVal d).isSome = true := hd d (by simp)
+  have hl := hexLoop_digits _ 0 hd
+  refine ⟨?_, ?_⟩
+  · have e1 : (48 :: x :: d :: t : Bytes).dropWhile isBlankC = 48 :: x :: d :: t := by
+      rw [List.dropWhile_cons]; simp [show isBlankC 48 = false by decide]
+    have e2 : hexSign (48 :: x :: d :: t) = (false, 48 :: x :: d :: t) := rfl
+    have e3 : skip0x (48 :: x :: d :: t) = d :: t := by
+      unfold skip0x
+      rcases hx with rfl | rfl <;> simp [hsome]
+    simp only [hexU32, e1, e2, e3, hl]
+    have : ¬ hexDigitsVal (d :: t) 0 ≥ 18446744073709551616 := by omega
+    simp only [this, if_false, Bool.false_eq_true]
+    exact Nat.mod_eq_of_lt hb
+  · rcases hx with rfl | rfl <;> simp [hexValue]
+
+theorem hexU32_hexText (s : Bytes) (h : HexText s) : hexU32 s = hexValue s ∧ hexValue s < 4294967296 := by
+  obtain ⟨pre, ds, hp, rfl, hne, hd, hb⟩ := h
+  cases ds with
+  | nil => exact absurd rfl hne
+  | cons d t =>
+    have hfd := hexVal_facts d (hd d (by simp))
+    have hsome : (hexVal d).isSome = true := hd d (by simp)
+    rcases hp with rfl | rfl | rfl
+    · -- no prefix
+      have e1 : ([] ++ d :: t : Bytes).dropWhile isBlankC = d :: t := by
+        simp [hfd.2.2.2.2]
+      have e2 : hexSign (d :: t) = (false, d :: t) := by
+        unfold hexSign
+        split
+        · rename_i heq; simp only [List.cons.injEq] at heq; exact absurd heq.1 hfd.2.2.1
+        · rename_i heq; simp only [List.cons.injEq] at heq; exact absurd heq.1 hfd.2.2.2.1
+        · rfl
+      have e3 : hexValue ([] ++ d :: t) = hexDigitsVal (d :: t) 0 := by
+        unfold hexValue
+        have : ¬ (([] ++ d :: t : Bytes).take 2 = [48, 120] ∨ ([] ++ d :: t : Bytes).take 2 = [48, 88]) := by
+          cases t with
+          | nil => simp
+          | cons x t' =>
+            have hx := hexVal_facts x (hd x (by simp))
+            simp [hx.1, hx.2.1]
+        rw [if_neg this]; rfl
+      rw [e3]
+      refine ⟨?_, hb⟩
+      simp only [hexU32, e1, e2, skip0x_digits _ hd, hexLoop_digits _ _ hd]
+      have : ¬ hexDigitsVal (d :: t) 0 ≥ 18446744073709551616 := by omega
+      simp only [this, if_false, Bool.false_eq_true]
+      exact Nat.mod_eq_of_lt hb
+    · have := hexU32_prefixed 120 d t (Or.inl rfl) hd hb
+      exact ⟨by simpa using this.1.trans this.2.symm, by simpa using this.2 ▸ hb⟩
+    · have := hexU32_prefixed 88 d t (Or.inr rfl) hd hb
+      exact ⟨by simpa using this.1.trans this.2.symm, by simpa using this.2 ▸ hb⟩
+
 /-- a cell that suits a column of type `t` when the reader's decimal symbol is `rdec`: strings in `s` columns
     (**any** string), number texts that do not already contain `rdec` in `n` columns, decimal integers below 2^31 in magnitude in `i` columns, anything in a dropped column -/
 def Fits (rdec : UInt8) : ColType → Cell → Prop
@@ -87,6 +202,7 @@ def Fits (rdec : UInt8) : ColType → Cell → Prop
   | .num, .num l => rdec ∉ l ∨ rdec = 46
   | .int, .num l => IntText l
   | .skip, _ => True
+  | .hex, .str s => HexText s
   | _, _ => False
 
 /-- what the cell is expected to come back as -/
@@ -94,6 +210,7 @@ def typedSpec : ColType → Cell → Option RCell
   | .str, .str s => some (.str s)
   | .num, .num l => some (.num (atofDec l))
   | .int, .num l => some (.int (intValue l))
+  | .hex, .str s => some (hexCell (hexValue s))
   | _, _ => none
 
 theorem map_id_of_not_mem (d : UInt8) (l : Bytes) (h : d ∉ l) :
@@ -121,6 +238,8 @@ theorem unloc_loc (d : UInt8) (l : Bytes) (h : d ∉ l) :
 theorem typedCell_localize (wdec rdec : UInt8) (hd : wdec = 46 ∨ wdec = rdec) (ty : ColType) (c : Cell)
     (hf : Fits rdec ty c) : typedCell rdec ty (cellText (localize wdec c)) = typedSpec ty c := by
   cases ty <;> cases c <;> simp only [Fits] at hf <;> try rfl
+  case hex.str s =>
+    simp only [localize, cellText, typedCell, typedSpec, hexCell, (hexU32_hexText s hf).1]
   case int.num l =>
     have e : (if wdec != 46 then l.map (fun c => if c = 46 then wdec else c) else l) = l := by
       split
